@@ -235,7 +235,11 @@ def eval_ee(line, hout, dout, wtab, stats, notes):
         for t in dt:
             if t.startswith("t:"):
                 stats["branches"][t[2:]] = stats["branches"].get(t[2:], 0) + 1
-        dcore = [t for t in dt if not t.startswith(("t:", "v:"))]
+        dcore = [t for t in dt if not t.startswith(("t:", "v:", "s:"))]
+        if "s:ok" in dt:
+            stats["spec_calls_ok"] = stats.get("spec_calls_ok", 0) + 1
+        elif tie:
+            probs.append(("corr", "spec-vs-model", "call %d: the history buffers of the model differ from the specification HistSpec driven by poolBufOp" % idx))
         hcore = [t for t in ht if not t.startswith("b:")]
         base = [unhex(t[2:]) for t in ht if t.startswith("b:")]
         op = c["op"]
@@ -1152,7 +1156,7 @@ def run(ctx):
         "model_vs_impl_disagreements": len(corr_bad), "property_failures_on_impl": len(prop_bad),
         "model_deviation_notes": notes,
         "plain_build": {"cases": stats.get("plain_build_cases"), "new_failures": stats.get("plain_build_new_failures")},
-        "numeric": {k: stats.get(k) for k in ("max_model_err_over_tol", "max_model_err_at", "probe_weights_vs_model_max_rel", "ill_conditioned_rows_skipped", "weight_vectors_probed", "hb_full_reads", "spec_cases_compared")},
+        "numeric": {k: stats.get(k) for k in ("max_model_err_over_tol", "max_model_err_at", "probe_weights_vs_model_max_rel", "ill_conditioned_rows_skipped", "weight_vectors_probed", "hb_full_reads", "spec_cases_compared", "spec_calls_ok")},
         "sanitizer_crashes": len(logs),
     })
     ctx.assumptions += [
